@@ -35,7 +35,7 @@ checks={
    text="BFS over all histories (depth 3, thorough 4) of the five list mutators over a 6x6 name/value menu on a real SearchParams with the standard's list operations in lock-step, all observers compared in every state, serialize-parse round trip in every state; all queries of SigmaQ^<=5 (thorough 7) against the standard's form-urlencoded parser.",
    note=MODEL_NOTE+"Known finding KF-serializer-delims (names/values containing % & + =) is matched narrowly and printed, not suppressed silently."),
  "C12": dict(level="model_checking", design="§5 C12", technique=T_HIST,
-   text="BFS (depth 3, thorough 4) over mixed histories: list mutators through two handles, SetSearch, other setters, clone and resolve, on 7 start URLs (with/without query, opaque or not); after each step the URL's Query/Search/Href and every handle ever obtained must describe the same list.",
+   text="BFS (depth 4, thorough 5) over mixed histories: list mutators through two handles, SetSearch, other setters, clone and resolve, on 7 start URLs (with/without query, opaque or not); after each step the URL's Query/Search/Href and every handle ever obtained must describe the same list.",
    note="Trusted: the standard's urlencoded parser (verif/model). Weaker reading where the statement is silent: an emptied list may leave a null or an empty query."),
  "C13": dict(level="model_checking", design="§5 C13", technique="explicit-state exploration of operation histories on pairs of real objects with frame and differential (twin) oracles",
    text="For every pairing (resolve of 11 reference shapes, Clone) of 19 start URLs, handle obtained never/before/after, every history of depth 2 (thorough 3) over ~45 operations applied to either side: untouched side's observables and parameter list unchanged; operated side equals the same history on an independent fresh parse.",
